@@ -1278,7 +1278,45 @@ def gen_optimise_fresh(tier, seed):
                     yield {"cfg": [mid, tips], "ops": [["opt", ev, True], ["opt", ev, True], ["aln", 1], ["opt", ev, True]]}
 
 
+# ------------------------------------------------------------------------------------------------ topological order
+def gen_topo(tier, seed):
+    for mid in OPT_MODELS:
+        for tips in (3, 4):
+            yield {"cfg": [mid, tips]}
+
+
+def contract_topo(case):
+    """the precondition the proof of _updateIntermediateValues assumes: lf.defns lists every definition before its
+    clients, without repeats, and every client of a listed definition is itself listed"""
+    warnings.filterwarnings("ignore")
+    mid, tips = case["cfg"]
+    try:
+        lf = _opt_build(mid, tips, 0)
+    except Exception:
+        return ("skip",)
+    pos = {}
+    for i, d in enumerate(lf.defns):
+        if id(d) in pos:
+            return ("fail", f"topological-order/{mid}/definition-listed-twice", f"{case}: {d.name} at {pos[id(d)]} and {i}")
+        pos[id(d)] = i
+    for i, d in enumerate(lf.defns):
+        for c in getattr(d, "clients", []):
+            if id(c) not in pos:
+                return ("fail", f"topological-order/{mid}/client-not-listed", f"{case}: client {c.name} of {d.name} is not in lf.defns")
+            if pos[id(c)] <= i:
+                return ("fail", f"topological-order/{mid}/client-before-its-input",
+                        f"{case}: {c.name} (position {pos[id(c)]}) is a client of {d.name} (position {i})")
+    return ("ok", len(lf.defns) > 3)
+
+
 BOUNDED = {
+    "defns_topological_order": {
+        "gen": gen_topo, "contract": contract_topo,
+        "functions": ["ParameterController.__init__ (construction of self.defns)", "CalculationDefn / _LeafDefn .clients"],
+        "bound": "the 9 models of optimise_fresh x 3- and 4-tip trees",
+        "rule": "run-time check of the precondition assumed by the proof of _updateIntermediateValues: lf.defns is a "
+                "duplicate-free list in which every definition precedes its clients and every client is listed",
+    },
     "optimise_fresh": {
         "gen": gen_optimise_fresh, "contract": contract_optimise_fresh,
         "functions": ["LikelihoodFunction.optimise", "ParameterController.update_from_calculator / update_intermediate_values",
